@@ -581,6 +581,173 @@ def emit_effects(e) -> str:
     return '\n'.join(L)
 
 
+
+# ---------------------------------------------------------------------------------------------------- Refusals
+# For every function that contains a `raise`: the raises some control-flow path reaches AFTER a mutation of the token
+# store / of a repeated field's item list (a may-analysis over if / loops / try / match, helper calls resolved by name
+# through a fixpoint).  The obligation (Obligations/Refusals.lean) is that there is none: whatever a function refuses,
+# it refuses before it has changed anything (C19).
+
+R_STORE_MUT = {'splice','_splice','insert_after','insert_before','remove','replace','update','_update_raw_text'}
+R_AMBIG = {'remove','replace','update'}
+R_CONTAINER_MUT = {'append','insert','extend','pop','clear','remove','sort','reverse','update','add','discard','setdefault','popitem'}
+
+
+def extract_refusals(repo: Path):
+    pkg = repo / 'autobean_refactor'
+    mods = {}
+    for p in sorted(pkg.rglob('*.py')):
+        rel = p.relative_to(pkg)
+        if p.name.endswith('_test.py') or rel.parts[0] in ('modelgen', 'meta_models', 'tests') or 'conftest' in p.name:
+            continue
+        try:
+            mods[str(rel)] = ast.parse(p.read_text())
+        except SyntaxError as e:
+            ERRORS.append(f'{rel}: {e}')
+    funcs = {}
+    for rel, t in mods.items():
+        for fn in [n for n in ast.walk(t) if isinstance(n, ast.FunctionDef)]:
+            funcs.setdefault(fn.name, []).append((rel, fn))
+
+    def direct_mut_expr(n, helper_names):
+        for c in ast.walk(n):
+            if isinstance(c, (ast.Lambda, ast.FunctionDef)): continue
+            if isinstance(c, ast.Call):
+                f = c.func
+                if isinstance(f, ast.Attribute):
+                    recv = ast.unparse(f.value)
+                    if f.attr in R_STORE_MUT and (f.attr not in R_AMBIG or 'store' in recv.lower()): return f.attr
+                    if f.attr in helper_names and (f.attr not in R_CONTAINER_MUT or recv == 'self'): return f.attr
+                elif isinstance(f, ast.Name) and f.id in helper_names: return f.id
+        return None
+    def stmt_mut(s, helper_names):
+        if isinstance(s, (ast.Assign, ast.AugAssign, ast.AnnAssign)):
+            tgts = s.targets if isinstance(s, ast.Assign) else [s.target]
+            for t in tgts:
+                for x in ast.walk(t):
+                    if isinstance(x, ast.Subscript) and isinstance(x.ctx, ast.Store) and ast.unparse(x.value).endswith('.items'):
+                        return 'items-assign'
+        if isinstance(s, ast.Delete):
+            for t in s.targets:
+                root = t
+                while isinstance(root, (ast.Attribute, ast.Subscript)): root = root.value
+                if isinstance(t, ast.Subscript) and ast.unparse(t.value).endswith('.items'): return 'items-del'
+        return direct_mut_expr(s, helper_names)
+
+    helper = set()
+    changed = True
+    while changed:
+        changed = False
+        for name, lst in funcs.items():
+            if name in helper or (name.startswith('__') and name not in ('__setitem__', '__delitem__', '__set__', '__iadd__')):
+                continue
+            for rel, fn in lst:
+                if any(stmt_mut(s, helper) for s in ast.walk(fn) if isinstance(s, ast.stmt) and s is not fn):
+                    helper.add(name)
+                    changed = True
+                    break
+    helper.discard('__init__')
+
+    def analyse(fn):
+        """Raises that some control-flow path reaches AFTER a store / item-list mutation (branch- and loop-aware, may-analysis)."""
+        late = []
+
+        def seq(stmts, states, loop):
+            # states: set of "mutated-by" markers (None = nothing mutated yet) with which control can reach this point
+            for s in stmts:
+                if not states:
+                    return states
+                if isinstance(s, ast.Raise):
+                    for m in states:
+                        if m:
+                            late.append((s.lineno - fn.lineno, m))
+                    return set()
+                if isinstance(s, ast.Return):
+                    return set()
+                if isinstance(s, ast.Continue):
+                    loop['cont'] |= states
+                    return set()
+                if isinstance(s, ast.Break):
+                    loop['brk'] |= states
+                    return set()
+                if isinstance(s, ast.If):
+                    t = direct_mut_expr(s.test, helper)
+                    st = {m or t for m in states}
+                    states = seq(s.body, set(st), loop) | seq(s.orelse, set(st), loop)
+                    continue
+                if isinstance(s, (ast.For, ast.While)):
+                    t = direct_mut_expr(s.iter if isinstance(s, ast.For) else s.test, helper)
+                    entry = {m or t for m in states}
+                    inner = {'cont': set(), 'brk': set()}
+                    seen = set()
+                    cur = set(entry)
+                    for _ in range(3):           # iterate to a fixpoint over the (tiny) state set
+                        out = seq(s.body, set(cur), inner) | inner['cont']
+                        if out <= seen:
+                            break
+                        seen |= out
+                        cur = cur | out
+                    after = entry | seen
+                    states = seq(s.orelse, set(after), loop) | inner['brk']
+                    continue
+                if isinstance(s, ast.Try):
+                    body = seq(s.body, set(states), loop)
+                    into_h = states | body | {m for m in [stmt_mut(x, helper) for x in ast.walk(s) if isinstance(x, ast.stmt)] if m}
+                    hs = set()
+                    for h in s.handlers:
+                        hs |= seq(h.body, set(into_h), loop)
+                    els = seq(s.orelse, set(body), loop)
+                    states = seq(s.finalbody, els | hs, loop) if s.finalbody else (els | hs)
+                    continue
+                if isinstance(s, ast.With):
+                    states = seq(s.body, states, loop)
+                    continue
+                if isinstance(s, ast.Match):
+                    out = set()
+                    for c in s.cases:
+                        out |= seq(c.body, set(states), loop)
+                    states = out | states      # no case may match
+                    continue
+                if isinstance(s, (ast.FunctionDef, ast.ClassDef)):
+                    continue
+                m2 = stmt_mut(s, helper)
+                states = {m or m2 for m in states}
+            return states
+        seq(fn.body, {None}, {'cont': set(), 'brk': set()})
+        return sorted(set(late))
+
+    rows = []
+    nfun = 0
+    for rel, t in mods.items():
+        def visit(node, prefix):
+            nonlocal nfun
+            for ch in ast.iter_child_nodes(node):
+                if isinstance(ch, ast.ClassDef):
+                    visit(ch, prefix + [ch.name])
+                elif isinstance(ch, ast.FunctionDef):
+                    if any(isinstance(n, ast.Raise) for n in ast.walk(ch)):
+                        nfun += 1
+                        q = rel[:-3].replace('/', '.') + '.' + '.'.join(prefix + [ch.name])
+                        for off, by in analyse(ch):
+                            rows.append((q, off, by))
+                    visit(ch, prefix + [ch.name])
+        visit(t, [])
+    return {'late': rows, 'n_raising': nfun, 'helpers': sorted(helper)}
+
+
+def emit_refusals(r):
+    L = ['/- GENERATED by extract/extract.py from /repo/autobean_refactor/**/*.py. Do not edit. -/', '',
+         'namespace Autobean.Generated', '',
+         f'/-- Functions of the package that contain a `raise` statement. -/',
+         f'def raisingFunctions : Nat := {r["n_raising"]}', '',
+         '/-- (function, line offset of the raise, what had been mutated before) for every `raise` some path reaches after a',
+         'mutation of the token store or of a repeated field\'s item list. -/',
+         'def lateRaises : List (String × Nat × String) := ' + llist(r['late'], lambda t: f'({lstr(t[0])}, {t[1]}, {lstr(t[2])})'), '',
+         'def mutatingHelpers : List String := ' + llist(r['helpers'], lstr), '',
+         'end Autobean.Generated', '']
+    return '\n'.join(L)
+
+
 def main(argv):
     repo = Path(argv[1])
     out = Path(argv[2])
@@ -594,6 +761,8 @@ def main(argv):
         changed.append('Schema')
     if write_if_changed(out / 'Effects.lean', emit_effects(effects)):
         changed.append('Effects')
+    if write_if_changed(out / 'Refusals.lean', emit_refusals(extract_refusals(repo))):
+        changed.append('Refusals')
     errs = ['/- GENERATED by extract/extract.py. Constructs of the source the translator could not read. -/', '',
             'namespace Autobean.Generated', '', 'def extractErrors : List String := ' + llist(ERRORS, lstr), '', 'end Autobean.Generated', '']
     if write_if_changed(out / 'Errors.lean', '\n'.join(errs)):
